@@ -1,0 +1,38 @@
+//go:build verif
+
+package filter
+
+// Contracts for govc (see /verif/DESIGN.md). Comment-only file: contributes no code.
+
+// ---- C10: whether a model name matches a filter depends only on the name and the patterns.
+// mg is the centralised matcher as a mathematical function of (name, pattern); the memo in front of it
+// must be transparent: every cached answer is mg of the pair it is looked up for.
+//@ spec func mg(s string, p string) bool = purecall("github.com/thushan/olla/internal/util/pattern.MatchesGlob", "bool", s, p)
+//@ spec func anyMatch(f *GlobFilter, name string, ps []string) bool = exists i int :: 0 <= i && i < len(ps) && mg(name, ps[i])
+//@ spec func inclAll(c *domain.FilterConfig) bool = len(c.Include) == 0 || (exists i int :: 0 <= i && i < len(c.Include) && c.Include[i] == "*")
+
+//@ spec func cacheOK(f *GlobFilter) bool = forall s string, p string :: has(f.patternCache, mk("patternCacheKey", s, p)) ==> f.patternCache[mk("patternCacheKey", s, p)] == mg(s, p)
+
+//@ type GlobFilter
+//@   guarded_by cacheMu: patternCache
+//@   repinv self.patternCache != nil
+//@   repinv cacheOK(self)
+
+//@ func (f *GlobFilter) matchesPattern
+//@   property C10
+//@   replay filter_cache_collision : s ; patternStr
+//@   modifies f.patternCache[all]
+//@   ensures res == mg(s, patternStr)
+
+//@ func (f *GlobFilter) Matches
+//@   property C10
+//@   requires config != nil ==> len(config.Include) < 1000000 && len(config.Exclude) < 1000000
+//@   modifies f.patternCache[all]
+//@   loop 1 invariant f.patternCache != nil && cacheOK(f) && !included && (forall j int :: 0 <= j && j < i$1 ==> !mg(itemName, config.Include[j]))
+//@   loop 2 invariant f.patternCache != nil && cacheOK(f) && forall j int :: 0 <= j && j < i$2 ==> !mg(itemName, config.Exclude[j])
+//@   ensures config == nil || (len(config.Include) == 0 && len(config.Exclude) == 0) ==> res
+//@   ensures config != nil && !(len(config.Include) == 0 && len(config.Exclude) == 0) ==> (res <==> ((inclAll(config) || anyMatch(f, itemName, config.Include)) && !anyMatch(f, itemName, config.Exclude)))
+
+//@ func (f *GlobFilter) ClearCache
+//@   property C10
+//@   modifies f.patternCache
